@@ -14,6 +14,7 @@ import (
 	"verif/harness/gen"
 	"verif/harness/oracle"
 	"verif/harness/rt"
+	"verif/harness/zoo"
 )
 
 // C02 — Unmarshal agrees with encoding/json on every valid document and target.
@@ -350,6 +351,85 @@ func c02Siblings(c *rt.Ctx, sub0 int) {
 	c.Obs("sibling_documents", int64(sub-sub0))
 }
 
+// c02Fresh: destinations whose unmarshalers accumulate instead of overwriting, as map keys, map
+// values, slice/array elements and members, in documents with several members: encoding/json
+// hands every key and every new element a fresh zero value.
+type c02FreshDst struct {
+	K1 map[zoo.AccFlags]int                      `json:"k1"`
+	K2 map[zoo.AccDigits]string                  `json:"k2"`
+	K3 map[zoo.AccStr]bool                       `json:"k3"`
+	V1 map[string]zoo.AccJSON                    `json:"v1"`
+	V2 map[string]*zoo.AccJSON                   `json:"v2"`
+	V3 map[string]zoo.AccDigits                  `json:"v3"`
+	S1 []zoo.AccJSON                             `json:"s1"`
+	S2 []*zoo.AccDigits                          `json:"s2"`
+	S3 []zoo.AccStr                              `json:"s3"`
+	A1 [3]zoo.AccDigits                          `json:"a1"`
+	M1 zoo.AccJSON                               `json:"m1"`
+	M2 *zoo.AccFlags                             `json:"m2"`
+	N  map[string]map[zoo.AccDigits][]zoo.AccStr `json:"n"`
+}
+
+func c02FreshRender(d c02FreshDst) string {
+	var sb strings.Builder
+	v := reflect.ValueOf(d)
+	for i := 0; i < v.NumField(); i++ {
+		f := v.Field(i)
+		if f.IsZero() {
+			continue
+		}
+		for f.Kind() == reflect.Ptr && !f.IsNil() {
+			f = f.Elem()
+		}
+		fmt.Fprintf(&sb, "%s=%+v ", v.Type().Field(i).Name, f.Interface())
+	}
+	out := sb.String()
+	if len(out) > 600 {
+		out = out[:600] + "..."
+	}
+	return out
+}
+
+func c02Fresh(c *rt.Ctx, sub0 int) {
+	docs := []string{
+		`{"k1":{"r":1,"w":2,"x":3}}`, `{"k1":{"rw":1,"x":2,"r":3}}`,
+		`{"k2":{"12":"a","34":"b","5":"c"}}`, `{"k2":{"1":"a","1":"b"}}`,
+		`{"k3":{"a":true,"b":false,"":true}}`,
+		`{"v1":{"a":1,"b":[2],"c":{"d":3}}}`, `{"v2":{"a":1,"b":null,"c":"s"}}`, `{"v3":{"a":"12","b":"34"}}`,
+		`{"s1":[1,"two",[3],{"f":4}]}`, `{"s2":["1","22",null,"333"]}`, `{"s3":["a","b","c"]}`, `{"a1":["1","22","333"]}`, `{"a1":["9"]}`,
+		`{"m1":1,"m2":"r"}`, `{"m1":1,"m1":2,"m2":"r","m2":"w"}`,
+		`{"n":{"p":{"1":["a","b"],"2":["c"]},"q":{"3":["d"]}}}`,
+		`{"k1":{"r":1,"w":2},"k2":{"7":"x","8":"y"},"s1":[1,2],"s3":["z","y"],"v1":{"a":1,"b":2}}`,
+	}
+	sub := sub0
+	for _, doc := range docs {
+		if !c.Cur(sub, "shapes=core\nfresh receivers: "+doc) {
+			sub++
+			continue
+		}
+		for ci := range decCfgs {
+			cfg := &decCfgs[ci]
+			var g, s c02FreshDst
+			var gerr error
+			pan, msg, _ := rt.Guard(func() { gerr = cfg.gof([]byte(doc), &g) })
+			serr := cfg.stdf([]byte(doc), &s)
+			c.Eval(1)
+			switch {
+			case pan:
+				c.Obs("panics_seen_judged_by_C06", 1)
+				_ = msg
+			case (gerr != nil) != (serr != nil):
+				c.Violate(rt.Violation{Monitor: "dec-diff", Entry: cfg.name, Kind: "fresh-receiver:verdict", Ctx: doc[2:4], Detail: fmt.Sprintf("%s: go-json err=%v, encoding/json err=%v", doc, gerr, serr), Sub: sub})
+			case serr == nil && !reflect.DeepEqual(g, s):
+				c.Violate(rt.Violation{Monitor: "dec-diff", Entry: cfg.name, Kind: "fresh-receiver:value", Ctx: doc[2:4], Detail: fmt.Sprintf("%s: go-json %s, encoding/json %s", doc, c02FreshRender(g), c02FreshRender(s)), Sub: sub})
+			}
+		}
+		c.NonTrivial("fresh", doc)
+		sub++
+	}
+	c.Obs("fresh_receiver_documents", int64(len(docs)))
+}
+
 func init() {
 	register(&Prop{
 		ID: "C02",
@@ -363,6 +443,9 @@ func init() {
 			rv := c.RNG(0)
 			if c.Idx%256 == 9 {
 				c02Siblings(c, 5000)
+			}
+			if c.Idx%64 == 10 {
+				c02Fresh(c, 6000)
 			}
 			for k := 0; k < 40; k++ {
 				o := gen.TypeOpts{FeatureProb: 20}
